@@ -137,6 +137,12 @@ pub fn run(name: &str, a: &[u64]) -> Vec<u64> {
         "sbd_hist" => crate::codec::sbd_hist(a),
         "intermediate" => crate::codec::intermediate(a),
         "plan_ops" => crate::codec::plan_ops(a),
+        "k_add" => crate::kern::k_add(a),
+        "k_mul" => crate::kern::k_mul(a),
+        "k_fma" => crate::kern::k_fma(a),
+        "k_fmabin" => crate::kern::k_fmabin(a),
+        "k_unpack" => crate::kern::k_unpack(a),
+        "slab_replay" => crate::codec::slab_replay(a),
         _ => panic!("unknown case function {}", name),
     }
 }
